@@ -94,6 +94,18 @@ def _check_main(run, P):
     _alias(run, "C12.lastuse", "C03.release", lambda: c12._lastuse(run, P))
     from . import c09, c14
     _alias(run, "C09.total", "C03.infer", lambda: c09._total(run, P))
+    _alias(run, "C09.operands", "C03.infer", lambda: c09._operands(run, P))
+    _alias(run, "C09.const", "C03.infer", lambda: c09._const(run, P))
+    # only loop counters are integers
+    reg = P.module("dagrt.function_registry")
+    ints = [(fn_, x) for fn_ in reg.functions.values() if fn_.name == "get_result_kinds"
+            for x in ast.walk(fn_.node) if isinstance(x, ast.Call) and dotted(x.func) in ("Integer", "Boolean")
+            and dotted(x.func) == "Integer"]
+    run.ob("C03.infer", ints[0][0] if ints else reg, ints[0][1] if ints else None, not ints,
+           construct="no built-in declares an Integer result (only loop counters are integers)"
+                     + (f"; found in {ints[0][0].qualname}" if ints else ""),
+           why="an Integer variable is a Fortran integer: 'i / n' with n = len(y) is integer "
+               "division there (0, 0, 0, 1) and true division in the interpreter")
     run.rule_docs["C14.swallow"] = ""
     run.minimum["C14.swallow"] = 0
     _alias(run, "C14.latch", "C03.infer", lambda: c14._table_update(run, P))
@@ -154,9 +166,11 @@ def _cmp(run, P):
         uses = any(isinstance(x, ast.Call) and isinstance(x.func, ast.Attribute)
                    and x.func.attr == "get" and isinstance(x.func.value, ast.Dict)
                    for x in ast.walk(f.node))
+    MEANS = {"==": {"==", ".eq."}, "!=": {"/=", ".ne."}, "<": {"<", ".lt."}, "<=": {"<=", ".le."},
+             ">": {">", ".gt."}, ">=": {">=", ".ge."}}
     for op in ops:
         out = table.get(op, op)
-        ok = out in FORTRAN_CMP
+        ok = out in FORTRAN_CMP and (op not in MEANS or out in MEANS[op])
         run.ob("C03.cmp", f if f is not None else F, f.node if f is not None else F.node, ok,
                construct=f"comparison operator {op!r} is printed as {out!r}",
                why="'!' starts a comment in free-form Fortran: the rest of the line is "
